@@ -2,7 +2,7 @@
 (* Trace validation for C02 / C03: format_trace.ndjson holds one line per recorded behaviour of
    the REAL parser and formatter (written by harness/fmtcore.go):
      {"ty":"fmt", ...a FormatLaws record...}       one source text run through both modes twice
-     {"ty":"fn", "id":n, "d0":.., "ok":.., "dI":..}  one function value printed by Inspect / SaveGlobals
+     {"ty":"fn", "id":n, "d0":.., "ok":.., "dI":.., "t":.., "ok2":.., "t2":..}  one function value printed by Inspect / SaveGlobals
      {"ty":"sess","id":n,"outs":[bytes,..]}        every byte string observed for ONE (input, mode)
                                                    over all replayed histories and processes
    One verdict line per record is emitted, so one bad record does not hide the rest.            *)
@@ -14,7 +14,7 @@ Init == idx = 0
 
 Verdict(r) ==
   IF r.ty = "fmt" THEN EmitLine(ToJson(Laws(r)))
-  ELSE IF r.ty = "fn" THEN EmitLine(ToJson([id |-> r.id, fn |-> FnLaw(r)]))
+  ELSE IF r.ty = "fn" THEN EmitLine(ToJson([id |-> r.id, fn |-> FnLaw(r), fnidem |-> FnIdem(r)]))
   ELSE EmitLine(ToJson([id |-> r.id, same |-> SameBytes(r.outs)]))
 
 Next == idx < Len(T) /\ Verdict(T[idx + 1]) /\ idx' = idx + 1
